@@ -4,7 +4,7 @@
    compares (a wrong method table or a wrong control-flow translation shows up here);
    [monitor_kcase] evaluates the pure share laws of property C02 on the values the Go code returned,
    independently of the generated definitions. No proofs here. *)
-From Coq Require Import List String Bool ZArith.
+From Coq Require Import List String Ascii Bool ZArith NArith.
 From Exo Require Import Base.IntDec Base.IntDec2 Base.Util Gen.Kernels.
 From Exo Require Gen.KernelsSnapshot.
 Import ListNotations.
@@ -40,13 +40,33 @@ Record ktable := mkKT {
   kt_usd : Z -> Z -> Z -> Z -> kres Z;
   kt_slash : Z -> Z -> Z -> kres (option Z * Z);
   kt_gas : Z -> Z -> Z -> kres Z;
-  kt_exc : Z -> Z -> Z -> Z -> bool }.
+  kt_exc : Z -> Z -> Z -> Z -> bool;
+  kt_epoch : Z -> Z -> bool -> Z -> Z -> Z -> Z -> bool -> Z -> bool * Z * bool * Z * Z * option Z * option Z * bool;
+  kt_less : string -> string -> Z -> Z -> bool;
+  kt_sprop : Z -> Z -> Z -> kres Z }.
+
+(* a 20-byte address from its big-endian integer value (the harness sends sdk.AccAddress values that way) *)
+Fixpoint bytes_of_Z (n : nat) (z : Z) : string :=
+  match n with
+  | O => EmptyString
+  | S m => String (ascii_of_N (Z.to_N ((z / 256 ^ Z.of_nat m) mod 256))) (bytes_of_Z m z)
+  end.
+
+(* what BeginBlocker leaves behind for one epoch info, from the generated decision: the stored fields (new ones iff
+   the write marker is set) and the two hook notifications (-1 = not called) *)
+Definition epoch_obs (d : bool * Z * bool * Z * Z * option Z * option Z * bool) (started : bool) (cur cur_start cur_height : Z) : list Z :=
+  let '(_, h', st', c', cs', aft, bef, saved) := d in
+  let b2z (b : bool) := if b then 1 else 0 in
+  (if saved then [h'; b2z st'; c'; cs'] else [cur_height; b2z started; cur; cur_start]) ++
+  [match aft with Some n => n | None => -1 end; match bef with Some n => n | None => -1 end].
 
 Definition kt_current : ktable :=
-  mkKT TokensFromShares SharesFromTokens CalculateUSDValue SlashFromUndelegation GasToRefund ExceedsThreshold.
+  mkKT TokensFromShares SharesFromTokens CalculateUSDValue SlashFromUndelegation GasToRefund ExceedsThreshold
+       epoch_tick_decision sort_by_power_less slash_proportion.
 Definition kt_snapshot : ktable :=
   mkKT KernelsSnapshot.TokensFromShares KernelsSnapshot.SharesFromTokens KernelsSnapshot.CalculateUSDValue
-       KernelsSnapshot.SlashFromUndelegation KernelsSnapshot.GasToRefund KernelsSnapshot.ExceedsThreshold.
+       KernelsSnapshot.SlashFromUndelegation KernelsSnapshot.GasToRefund KernelsSnapshot.ExceedsThreshold
+       KernelsSnapshot.epoch_tick_decision KernelsSnapshot.sort_by_power_less KernelsSnapshot.slash_proportion.
 
 (* the kernels by name; the composite calls chain two or three kernel calls the way the keeper does *)
 Definition run_kernel (kt : ktable) (fn : string) (args : list Z) : option kobs :=
@@ -56,6 +76,7 @@ Definition run_kernel (kt : ktable) (fn : string) (args : list Z) : option kobs 
       else if String.eqb fn "SharesFromTokens" then Some (of_kres enc_Z (kt_sft kt a b c))
       else if String.eqb fn "SlashFromUndelegation" then Some (of_kres enc_slash (kt_slash kt a b c))
       else if String.eqb fn "GasToRefund" then Some (of_kres enc_Z (kt_gas kt a b c))
+      else if String.eqb fn "slash_proportion" then Some (of_kres enc_Z (kt_sprop kt a b c))
       else if String.eqb fn "RoundTrip" then (* S T x : mint for x, then redeem exactly the minted shares *)
         Some (kbind (kt_sft kt a c b) (fun sh =>
               kbind (kt_tfs kt sh (a + sh) (b + c)) (fun t => OOk [sh; t])))
@@ -63,6 +84,8 @@ Definition run_kernel (kt : ktable) (fn : string) (args : list Z) : option kobs 
   | [a; b; c; d] =>
       if String.eqb fn "CalculateUSDValue" then Some (of_kres enc_Z (kt_usd kt a b c d))
       else if String.eqb fn "ExceedsThreshold" then Some (OOk (enc_bool (kt_exc kt a b c d)))
+      else if String.eqb fn "sort_by_power_less" then (* addr_i addr_j (20-byte big-endian values) power_i power_j *)
+        Some (OOk (enc_bool (kt_less kt (bytes_of_Z 20 a) (bytes_of_Z 20 b) c d)))
       else if String.eqb fn "BystanderD" then (* S T x shB : value of B's shares before/after A delegates x *)
         Some (kbind (kt_sft kt a c b) (fun sh =>
               kbind (kt_tfs kt d a b) (fun v =>
@@ -71,6 +94,20 @@ Definition run_kernel (kt : ktable) (fn : string) (args : list Z) : option kobs 
         Some (kbind (kt_tfs kt c a b) (fun out =>
               kbind (kt_tfs kt d a b) (fun v =>
               kbind (kt_tfs kt d (a - c) (b - out)) (fun v' => OOk [out; v; v']))))
+      else None
+  | [a; b] =>
+      (* the method table itself: LegacyDec operations of cosmossdk.io/math against Base/IntDec.v *)
+      let res (v : Z) := if dec_ok v then OOk [v] else OPanic in
+      if String.eqb fn "Dec.QuoTruncate" then Some (if b =? 0 then OPanic else res (dec_quo_trunc a b))
+      else if String.eqb fn "Dec.QuoRoundUp" then Some (if b =? 0 then OPanic else res (dec_quo_roundup a b))
+      else if String.eqb fn "Dec.Quo" then Some (if b =? 0 then OPanic else res (dec_quo a b))
+      else if String.eqb fn "Dec.MulTruncate" then Some (res (dec_mul_trunc a b))
+      else if String.eqb fn "Dec.Mul" then Some (res (dec_mul a b))
+      else None
+  | [h; t; valid; start; dur; cur; cur_start; started; cur_height] =>
+      if String.eqb fn "epoch_tick_decision" then
+        Some (OOk (epoch_obs (kt_epoch kt h t (negb (valid =? 0)) start dur cur cur_start (negb (started =? 0)) cur_height)
+                             (negb (started =? 0)) cur cur_start cur_height))
       else None
   | _ => None
   end.
